@@ -127,6 +127,7 @@ func main() {
 
 	w := world.New(fmt.Sprintf("C10-%d", si))
 	defer w.Close()
+	w.CRL.Fragment.Store(si%2 == 1)
 	tlsSrv := httptest.NewUnstartedServer(http.HandlerFunc(func(rw http.ResponseWriter, r *http.Request) { rw.WriteHeader(200) }))
 	tlsSrv.TLS = &tls.Config{}
 	tlsSrv.StartTLS()
